@@ -99,7 +99,7 @@ package atree
 //@   ensures[C18] err != nil ==> v == nil && categorised(err)
 //@   ensures err == nil ==> i < acount(a)
 //@   ensures forall vid ValueID :: has(a.mutableElementIndex, vid) && a.mutableElementIndex[vid] != i ==> old(has(a.mutableElementIndex, vid)) && a.mutableElementIndex[vid] == old(a.mutableElementIndex[vid])
-//@   modifies a.mutableElementIndex, Array.parentUpdater, OrderedMap.parentUpdater, alloc
+//@   modifies a.mutableElementIndex, Array.parentUpdater, OrderedMap.parentUpdater, alloc, ghost.wired
 
 //@ # one step of the mutable iterator: reads position nextIndex and advances by exactly one; stops (nil, nil) exactly at lastIndex;
 //@ # an error leaves the cursor where it was; a cursor that ran past the end of the array is an error, not a silent stop
@@ -110,24 +110,27 @@ package atree
 //@   ensures[C13] i.nextIndex <= i.lastIndex
 //@   ensures[C18] old(i.nextIndex) != old(i.lastIndex) && old(i.nextIndex) >= old(acount(i.array)) ==> err != nil && isUser(err)
 //@   ensures[C18] err != nil ==> v == nil && categorised(err)
-//@   modifies i.nextIndex, i.array.mutableElementIndex, Array.parentUpdater, OrderedMap.parentUpdater, alloc
+//@   modifies i.nextIndex, i.array.mutableElementIndex, Array.parentUpdater, OrderedMap.parentUpdater, alloc, ghost.wired
 
+//@ # wired: number of times a child was given a parent updater (ghost event counter)
+//@ ghost wired : int
 //@ iface mutableValueNotifier.setParentUpdater(f)
 //@   conform all
 //@   serves C10 C11
-//@   modifies Array.parentUpdater, OrderedMap.parentUpdater
+//@   ghostdef wired == old(wired) + 1
+//@   modifies Array.parentUpdater, OrderedMap.parentUpdater, ghost.wired
 
 //@ func (a *Array) setParentUpdater(f)  serves C10
 //@   ensures a.parentUpdater == f
-//@   modifies a.parentUpdater
+//@   modifies a.parentUpdater, ghost.wired
 
 //@ func (m *OrderedMap) setParentUpdater(f)  serves C10
 //@   ensures m.parentUpdater == f
-//@   modifies m.parentUpdater
+//@   modifies m.parentUpdater, ghost.wired
 
 //@ # a value handed out by the read-only iterator gets an updater that refuses mutation; nothing else is written
 //@ func (i *readOnlyArrayIterator) setMutationCallback(value)  serves C13
-//@   modifies Array.parentUpdater, OrderedMap.parentUpdater, alloc
+//@   modifies Array.parentUpdater, OrderedMap.parentUpdater, alloc, ghost.wired
 
 //@ # one step of the read-only iterator: yields elements[indexInDataSlab] of the current leaf, moves to the next leaf through the
 //@ # sibling link when the current one is exhausted, and never yields more than remainingCount elements
@@ -144,4 +147,90 @@ package atree
 //@   ensures[C13] err == nil && old(i.remainingCount) > 0 && old(i.indexInDataSlab) >= old(len(i.dataSlab.elements)) && old(i.dataSlab.next) == SlabIDUndefined ==> v == nil
 //@   ensures[C13] err != nil ==> i.remainingCount == old(i.remainingCount)
 //@   ensures[C18] err != nil ==> v == nil && categorised(err)
-//@   modifies i.dataSlab, i.indexInDataSlab, i.remainingCount, Array.parentUpdater, OrderedMap.parentUpdater, alloc
+//@   modifies i.dataSlab, i.indexInDataSlab, i.remainingCount, Array.parentUpdater, OrderedMap.parentUpdater, alloc, ghost.wired
+
+//@ # ---- loaded-value iteration of arrays (C13): only loaded slabs are itVisited, in index order; a reference to a slab that is not loaded
+//@ # is skipped, nothing is itVisited twice and the cursors only move forward
+//@ func getLoadedValue(storage, storable) (v, err)  serves C13 C18
+//@   requires storage != nil && storable != nil
+//@   # a plain element always has a value; only references (bare or wrapped) to slabs that are not loaded are skipped
+//@   ensures[C13] err == nil && !is(storable, SlabIDStorable) && !is(storable, WrapperStorable) ==> v == svOf(storable) && v != nil
+//@   ensures[C13] err == nil && is(storable, SlabIDStorable) && v != nil ==> sto[SlabID(as(storable, SlabIDStorable))] != nil && v == svOf(sto[SlabID(as(storable, SlabIDStorable))])
+//@   before[C13] SlabStorage.RetrieveIfLoaded: arg_recv == storage
+//@   before[C13] Storable.StoredValue: arg_storage == storage
+//@   ensures[C18] err != nil ==> v == nil && categorised(err)
+//@   modifies alloc
+
+//@ func (i *arrayLoadedElementIterator) next() (v, err)  serves C13 C18
+//@   requires i.storage != nil && i.slab != nil && 0 <= i.index && (forall k :: 0 <= k && k < len(i.slab.elements) ==> i.slab.elements[k] != nil)
+//@   ensures[C13] old(i.index) <= i.index && i.index <= ite(old(i.index) <= len(i.slab.elements), len(i.slab.elements), old(i.index)) && i.slab == old(i.slab) && i.storage == old(i.storage)
+//@   ensures[C13] err == nil && v != nil ==> i.index > old(i.index)
+//@   ensures[C13] err == nil && v == nil ==> i.index >= len(i.slab.elements)
+//@   before[C13] getLoadedValue: arg_storage == i.storage && i.index >= 1 && i.index <= len(i.slab.elements) && arg_storable == i.slab.elements[i.index - 1]
+//@   ensures[C18] err != nil ==> v == nil
+//@   modifies i.index, alloc
+//@   loop 1: invariant old(i.index) <= i.index && i.index <= ite(old(i.index) <= len(i.slab.elements), len(i.slab.elements), old(i.index)) && i.slab == old(i.slab) && i.storage == old(i.storage)
+
+//@ func (i *arrayLoadedSlabIterator) next() (r)  serves C13
+//@   requires i.storage != nil && i.slab != nil && 0 <= i.index
+//@   ensures[C13] old(i.index) <= i.index && i.index <= ite(old(i.index) <= len(i.slab.childrenHeaders), len(i.slab.childrenHeaders), old(i.index)) && i.slab == old(i.slab) && i.storage == old(i.storage)
+//@   ensures[C13] r != nil ==> i.index > old(i.index) && r == sto[i.slab.childrenHeaders[i.index - 1].slabID]
+//@   ensures[C13] r == nil ==> i.index >= len(i.slab.childrenHeaders)
+//@   before[C13] SlabStorage.RetrieveIfLoaded: arg_recv == i.storage && i.index >= 1 && i.index <= len(i.slab.childrenHeaders) && arg_id == i.slab.childrenHeaders[i.index - 1].slabID
+//@   modifies i.index
+//@   loop 1: invariant old(i.index) <= i.index && i.index <= ite(old(i.index) <= len(i.slab.childrenHeaders), len(i.slab.childrenHeaders), old(i.index)) && i.slab == old(i.slab) && i.storage == old(i.storage)
+
+//@ # the stack of index-slab cursors: the top cursor is advanced; a loaded leaf ends the search with a new element cursor, a loaded index
+//@ # slab is pushed, an exhausted cursor is popped; the search ends without a leaf only when the stack is empty
+//@ func (i *ArrayLoadedValueIterator) nextDataIterator() (r, err)  serves C13 C18
+//@   requires i.storage != nil
+//@   before[C13] arrayLoadedSlabIterator.next: len(i.parents) >= 1 && arg_recv == i.parents[len(i.parents) - 1]
+//@   ensures[C13] err == nil && r != nil ==> fresh(r) && r.index == 0 && r.slab != nil
+//@   ensures[C13] err == nil && r == nil ==> len(i.parents) == 0
+//@   ensures[C18] err != nil ==> r == nil
+//@   modifies heap, alloc
+
+//@ func (i *ArrayLoadedValueIterator) Next() (v, err)  serves C13 C18
+//@   requires i.storage != nil
+//@   ghostdef itYielded == old(itYielded) + ite(err == nil && v != nil, 1, 0)
+//@   ghostdef itVisited == old(itVisited)
+//@   before[C13] arrayLoadedElementIterator.next: arg_recv == i.dataIterator && i.dataIterator != nil
+//@   before[C13] ArrayLoadedValueIterator.nextDataIterator: arg_recv == i && i.dataIterator == nil
+//@   ensures[C18] err != nil ==> v == nil
+//@   modifies heap, ghost.itYielded, alloc
+
+//@ # ---- where each array iterator starts (C13): the mutable one at position 0 with the element count as its end, the read-only one in the
+//@ # leftmost leaf with the element count still to yield, the loaded-value one at the root
+//@ func (a *Array) Iterator() (it, err)  serves C13
+//@   requires isArr(a.root)
+//@   ensures[C13] err == nil && acount(a) != 0 ==> is(it, *mutableArrayIterator) && fresh(as(it, *mutableArrayIterator)) && as(it, *mutableArrayIterator).array == a &&
+//@        as(it, *mutableArrayIterator).nextIndex == 0 && as(it, *mutableArrayIterator).lastIndex == acount(a)
+//@   modifies alloc
+
+//@ func (a *Array) ReadOnlyIteratorWithMutationCallback(valueMutationCallback) (it, err)  serves C13 C18
+//@   requires a.Storage != nil && isArr(a.root)
+//@   before[C13] firstArrayDataSlab: arg_storage == a.Storage && arg_slab == a.root
+//@   ensures[C13] err == nil && acount(a) != 0 ==> is(it, *readOnlyArrayIterator) && fresh(as(it, *readOnlyArrayIterator)) && as(it, *readOnlyArrayIterator).array == a &&
+//@        as(it, *readOnlyArrayIterator).indexInDataSlab == 0 && as(it, *readOnlyArrayIterator).remainingCount == acount(a) && as(it, *readOnlyArrayIterator).dataSlab != nil
+//@   ensures[C13] err == nil && acount(a) != 0 && valueMutationCallback != nil ==> as(it, *readOnlyArrayIterator).valueMutationCallback == valueMutationCallback
+//@   ensures[C18] err != nil ==> it == nil
+//@   modifies alloc
+
+//@ func (a *Array) ReadOnlyLoadedValueIterator() (it, err)  serves C13 C18
+//@   requires a.Storage != nil && a.root != nil
+//@   ensures[C13] err == nil ==> it != nil && fresh(it) && it.storage == a.Storage
+//@   ensures[C13] err == nil && is(a.root, *ArrayDataSlab) ==> len(it.parents) == 0 && it.dataIterator != nil && it.dataIterator.slab == as(a.root, *ArrayDataSlab) &&
+//@        it.dataIterator.index == 0 && it.dataIterator.storage == a.Storage
+//@   ensures[C13] err == nil && is(a.root, *ArrayMetaDataSlab) ==> it.dataIterator == nil && len(it.parents) == 1 && it.parents[0] != nil && it.parents[0].slab == as(a.root, *ArrayMetaDataSlab) &&
+//@        it.parents[0].index == 0 && it.parents[0].storage == a.Storage
+//@   ensures[C18] err != nil ==> it == nil
+//@   modifies alloc
+
+//@ func (a *Array) IterateReadOnlyLoadedValues(fn) (err)  serves C13 C18
+//@   requires a.Storage != nil && a.root != nil && fn != nil
+//@   before[C13] Array.ReadOnlyLoadedValueIterator: arg_recv == a
+//@   before[C13] ArrayLoadedValueIterator.Next: arg_recv == iterator
+//@   before[C13] ArrayIterationFunc: arg_x == value && value != nil && itYielded - old(itYielded) == itVisited - old(itVisited) + 1
+//@   ensures[C13] itVisited - old(itVisited) == itYielded - old(itYielded)
+//@   modifies heap, ghost.itYielded, ghost.itVisited, alloc
+//@   loop 1: invariant itVisited - old(itVisited) == itYielded - old(itYielded) && iterator != nil && iterator.storage != nil
